@@ -6,6 +6,7 @@ import Hg.Driver.Wire
 import Hg.Model.Eqv
 import Hg.Model.WF
 import Hg.Model.Immut
+import Hg.Model.Live
 
 namespace Hg.Proto
 open Hg Hg.Wire
@@ -226,6 +227,14 @@ def step (pool : Pool) (cmd : Json) : Pool × Json :=
       match (strOf? h1).bind pool.get?, (strOf? h2).bind pool.get? with
       | some a, some b => (pool, .bool (sameBase a b))
       | _, _ => (pool, err "bad samebase")
+    | "$hastmpl", [h] =>
+      match (strOf? h).bind pool.get? with
+      | some a => (pool, .bool (hasTmpl a))
+      | none => (pool, err "no handle")
+    | "$nobins", [h] =>
+      match (strOf? h).bind pool.get? with
+      | some a => (pool, .bool (noBins a))
+      | none => (pool, err "no handle")
     | "$uniform", [h] =>
       match (strOf? h).bind pool.get? with
       | some a => (pool, .bool (uniform a))
